@@ -94,8 +94,8 @@ func c04case(c GCase, a *run.Acc, variant int) {
 		return
 	}
 	// acceptance against the reference: only where a least-fixpoint meaning exists
-	if g.HasExtendedOps() {
-		a.Count("totality only (grammar with trimming wrappers: no reference semantics)", 1)
+	if !g.RefModelled() {
+		a.Count("totality only (grammar with RightTrim / Single / SuppressError wrappers: no reference semantics)", 1)
 		if nontrivial {
 			a.NonTrivial(c.Key() + vdesc)
 		}
@@ -135,8 +135,9 @@ func c04case(c GCase, a *run.Acc, variant int) {
 	if accepts {
 		a.Count("accepted whole-input parses", 1)
 	}
-	if r.Node != nil && !o.Evaluate {
-		// the returned tree starts at the first byte and ends at end of input
+	if r.Node != nil && !o.Evaluate && !g.HasExtendedOps() {
+		// the returned tree starts at the first byte and ends at end of input (grammars with LeftTrim are judged on
+		// acceptance only: a left-trimmed first token keeps its own start, after the leading whitespace - C10's rule)
 		base := r.Env.Base
 		if int(r.Node.Pos())-base != 0 || int(r.Node.ReaderPos())-base != len(c.In) {
 			d["root"] = gram.Render(r.Node, base)
@@ -183,6 +184,8 @@ func c04plan(tier string, seed int64) []run.Job {
 		jobs = append(jobs, run.Job{Family: "random", Seed: seed*100000 + 20000 + int64(i), N: per / 2, P: map[string]int{"strat": 1, "lrfree": 1, "maxlen": 8, "inputs": 6}})
 		jobs = append(jobs, run.Job{Family: "mutual", Seed: seed*100000 + 50000 + int64(i), N: per / 2, P: map[string]int{"inputs": 6, "maxlen": 10}})
 		jobs = append(jobs, run.Job{Family: "random", Seed: seed*100000 + 80000 + int64(i), N: per / 4, P: map[string]int{"strat": 1, "maxlen": 8, "inputs": 6, "ends": 1, "memoexpr": 0}})
+		// LeftTrim (all four whitespace modes) and End leaves have a reference meaning: acceptance is judged
+		jobs = append(jobs, run.Job{Family: "random", Seed: seed*100000 + 85000 + int64(i), N: per / 2, P: map[string]int{"strat": 1, "maxlen": 8, "inputs": 6, "trims": 1, "lefttrims": 1, "ends": 1, "memoexpr": 0}})
 		jobs = append(jobs, run.Job{Family: "random", Seed: seed*100000 + 70000 + int64(i), N: per / 4, P: map[string]int{"strat": 0, "maxlen": 8, "inputs": 6, "trims": 1, "memoexpr": 0}})
 	}
 	jobs = append(jobs, enumJobs(maxNodes, false, 4, 300)...)
